@@ -391,9 +391,10 @@ def processDeposit (cfg : Config) (ctx : Ctx) (s : State) (dep : Deposit) : Res 
     let s ← increaseBalance s valIndex dep.data.amount
     pure (ctx, s)
 
-/-- `phase0.ProcessDeposits`: the count rule (wrapping subtraction), then every deposit -/
+/-- `phase0.ProcessDeposits`: the count rule (as repaired: no wrapping subtraction), then every deposit -/
 def processDeposits (cfg : Config) (ctx : Ctx) (s : State) (ops : List Deposit) : Res (Ctx × State) := do
-  let expected := w64 (s.eth1_data.deposit_count + 2 ^ 64 - s.eth1_deposit_index)
+  guard (!(s.eth1_data.deposit_count < s.eth1_deposit_index))
+  let expected := s.eth1_data.deposit_count - s.eth1_deposit_index
   let expected := if expected > cfg.MAX_DEPOSITS then cfg.MAX_DEPOSITS else expected
   guard (ops.length = expected)
   ops.foldlM (fun (acc : Ctx × State) d => processDeposit cfg acc.1 acc.2 d) (ctx, s)
